@@ -221,7 +221,23 @@ def trace_plumbing(chk, prog, c):
             adapters.append((items["trace_gc"], "collect::Trace::trace_gc", "collect::Trace::trace_gc_weak"))
         if "trace_gc_weak" in items:
             adapters.append((items["trace_gc_weak"], "collect::Trace::trace_gc_weak", "collect::Trace::trace_gc"))
-    chk.floor("trace-forwarding-adapters[%s]" % c, len(adapters), 2)
+        # an adapter that leaves one of the two out inherits the trait's default for it - and there is no default that
+        # keeps a weak pointer weak without knowing the wrapped tracer
+        missing = [m_ for m_ in ("trace_gc", "trace_gc_weak") if m_ not in items]
+        chk.inst("strong-weak-plumbing", "impl Trace for %s[%s]" % (im.get("self_s"), c), not missing,
+                 detail="`impl Trace for %s` does not define %s: the pointer kind it is handed is decided by a default method "
+                        "of the trait, not forwarded to the wrapped tracer" % (im.get("self_s"), missing),
+                 loc="%s:%s" % (im["span"]["f"], im["span"]["l"]))
+    # the trait's own default bodies (if it has any) must not turn one pointer kind into the other
+    for meth, other in (("trace_gc_weak", "trace_gc"), ("trace_gc", "trace_gc_weak")):
+        dflt = "collect::Trace::" + meth
+        if dflt in prog.seed_n:
+            calls = decl_calls(dflt)
+            chk.inst("strong-weak-plumbing", "%s (default body)[%s]" % (dflt, c), ("collect::Trace::" + other) not in calls,
+                     detail="the default body of `Trace::%s` calls `Trace::%s`: every tracer that does not override it "
+                            "(a forwarding adapter, say) reports %s pointers as %s ones" % (
+                                meth, other, "weak" if meth == "trace_gc_weak" else "strong",
+                                "strong" if meth == "trace_gc_weak" else "weak"))
     for fn, want, forbid in [
             ("<gc::Gc as collect::Collect>::trace", "collect::Trace::trace_gc", "collect::Trace::trace_gc_weak"),
             ("<gc_weak::GcWeak as collect::Collect>::trace", "collect::Trace::trace_gc_weak", "collect::Trace::trace_gc")] + adapters + [
@@ -247,3 +263,4 @@ def trace_plumbing(chk, prog, c):
             all(r == 2 for (r, a, f) in sites[0].chain if r != "const")
         chk.inst("strong-weak-plumbing", "%s[%s]" % (fn, c), ok,
                  detail="Trace::trace must call <C as Collect>::trace(value, self) exactly under `C::NEEDS_TRACE`")
+    chk.floor("strong-weak-plumbing[%s]" % c, sum(1 for i in chk.instances if i[0] == "strong-weak-plumbing" and i[1].endswith("[%s]" % c)), 6)
